@@ -7,6 +7,6 @@ THEOREMS_C14 = ["C14_drop_last", "C14_slice", "C14_incremental", "C14_eq", "C14_
 
 
 def run(run, args):
-    n = 600 if run.tier == "quick" else 6000
+    n = (600 if run.tier == "quick" else 6000) * run.scale
     recs, res, errors = peaklib.run_peak(run, "c14", n)
     decide(run, recs, res, errors, THEOREMS_C14, "C14")
